@@ -187,6 +187,11 @@ func (s *Server) sendTransaction(t Transaction) error {
 		return nil
 	}
 
+	// A transaction larger than io.Copy's 32 KiB buffer is written with several Write calls.  Serialize the senders of
+	// one client so that the bytes of two transactions bound for the same connection are never interleaved.
+	client.writeMu.Lock()
+	defer client.writeMu.Unlock()
+
 	_, err := io.Copy(client.Connection, &t)
 	if err != nil {
 		return fmt.Errorf("failed to send transaction to client %v: %v", t.ClientID, err)
